@@ -4990,18 +4990,20 @@ class PyCdlib:
                 # If the depth was a multiple of 8, then we are going to have to
                 # make a relocated entry for this record.
 
-                num_bytes_to_add += self._find_or_create_rr_moved()
-
                 # With a depth of 8, we have to add the directory both to the
                 # original parent with a CL link, and to the new parent with an
                 # RE link.  Here we make the 'fake' record, as a child of the
-                # original place; the real one will be done below.
+                # original place; the real one will be done below.  It is made
+                # first: if it is refused, no RR_MOVED must have been created.
                 fake_dir_rec = dr.DirectoryRecord()
                 fake_dir_rec.new_dir(self.pvd, name, parent,
                                      self.pvd.sequence_number(),
                                      self.rock_ridge, new_rr_name,
                                      self.logical_block_size, True, False,
                                      self.xa, file_mode, time.time())
+
+                num_bytes_to_add += self._find_or_create_rr_moved()
+
                 num_bytes_to_add += self._add_child_to_dr(fake_dir_rec)
                 num_bytes_to_add += self._update_rr_ce_entry(fake_dir_rec)
 
